@@ -233,7 +233,6 @@ Qed.
 
 Record iri_facts (i : str) : Prop := {
   if_nospace : nospace i = true;
-  if_noat : nochar "@"%char i = true;
   if_nonempty : i <> [];
   if_nolt : prefixb (Str "<") i = false;
   if_nobn : prefixb (Str "_:") i = false
@@ -244,9 +243,11 @@ Proof. intros F. unfold has_corners. rewrite (if_nolt _ F). reflexivity. Qed.
 
 Lemma ok_iri_facts i : ok_iri i = true -> iri_facts i.
 Proof.
-  unfold ok_iri, word. intros H. repeat (apply andb_true_iff in H; destruct H as [H ?]).
+  unfold ok_iri. intros H.
+  apply andb_true_iff in H; destruct H as [H H3]. apply andb_true_iff in H; destruct H as [H H2].
+  apply andb_true_iff in H; destruct H as [H H1].
   constructor; auto; try (apply negb_true_iff; assumption).
-  apply negb_true_iff in H2. apply str_eqb_neq in H2. assumption.
+  apply negb_true_iff in H1. apply str_eqb_neq in H1. assumption.
 Qed.
 
 Lemma noraise_id i : has_corners i = false -> remove_corners_noraise i = i.
@@ -269,10 +270,11 @@ Proof. unfold remove_corners_noraise. rewrite has_corners_angle, slice_angle. re
 
 Lemma ok_local_facts p l :
   ok_local p l = true ->
-  nospace l = true /\ nochar "@"%char l = true /\ contains (p ++ Str ":") l = false /\
+  nospace l = true /\ True /\ contains (p ++ Str ":") l = false /\
   suffixb (Str ">") (Str ":" ++ l) = false.
 Proof.
-  unfold ok_local, word. intros H. repeat (apply andb_true_iff in H; destruct H as [H ?]).
+  unfold ok_local. intros H.
+  apply andb_true_iff in H; destruct H as [H H2]. apply andb_true_iff in H; destruct H as [H H1].
   repeat split; auto; apply negb_true_iff; assumption.
 Qed.
 
@@ -541,7 +543,9 @@ Lemma parse_sparql_selector pd wf q :
   ok_query wf q = true ->
   parse_node_selector wf pd (Str "SPARQL '" ++ q ++ Str "'") = Ok (PSSparql q).
 Proof.
-  intros H. unfold ok_query in H. repeat (apply andb_true_iff in H; destruct H as [H ?]).
+  intros H. unfold ok_query in H.
+  apply andb_true_iff in H; destruct H as [H H0]. apply andb_true_iff in H; destruct H as [H H1].
+  apply andb_true_iff in H; destruct H as [H3 H2].
   apply negb_true_iff in H2.
   unfold parse_node_selector.
   assert (Hstrip : strip (Str "SPARQL '" ++ q ++ Str "'") = Str "SPARQL '" ++ q ++ Str "'").
@@ -595,13 +599,19 @@ Qed.
 
 (** ** shape-map items *)
 
+(** the shapes of the code Props/C10.v is proved for (see tools/gen_consts.py) *)
+Lemma flag_label : c_sm_label_bracketed = true. Proof. reflexivity. Qed.
+Lemma flag_rsplit : c_sm_item_rsplit = true. Proof. reflexivity. Qed.
+Lemma flag_dedup : c_sm_dedup_labels = true. Proof. reflexivity. Qed.
+
+Definition clabel (ns : nsdict) (r : iriref) : str := add_corners (cref ns r).
+
 Definition citem (ns : nsdict) (it : item) : pitem :=
-  {| pi_sel := csel ns (it_sel it); pi_label := show_ref (it_label it) |}.
+  {| pi_sel := csel ns (it_sel it); pi_label := clabel ns (it_label it) |}.
 
 (** the syntactic half of [ok_item] *)
 Definition ok_item_syn (ns : nsdict) (wf : str -> bool) (it : item) : bool :=
-  is_angle (it_label it) && ok_ref ns (pd_of ns) false (it_label it) &&
-  ok_selector ns (pd_of ns) wf (it_sel it).
+  ok_label ns (pd_of ns) (it_label it) && ok_selector ns (pd_of ns) wf (it_sel it).
 
 Lemma mapM_ok {A B} (f : A -> res B) (g : A -> B) l :
   (forall x, In x l -> f x = Ok (g x)) -> mapM f l = Ok (map g l).
@@ -611,15 +621,51 @@ Proof.
   reflexivity.
 Qed.
 
+Lemma ok_label_split ns pd r :
+  ok_label ns pd r = true ->
+  ok_ref ns pd false r = true /\ nochar "@"%char (show_ref r) = true /\
+  (len (show_ref r) <? 2)%Z = false /\ suffixb (Str ",") (show_ref r) = false.
+Proof.
+  unfold ok_label. intros H.
+  apply andb_true_iff in H; destruct H as [H H3]. apply andb_true_iff in H; destruct H as [H H2].
+  apply andb_true_iff in H; destruct H as [H0 H1].
+  repeat split; auto; apply negb_true_iff; assumption.
+Qed.
+
+(** a bracketed or prefixed label is stored as [<iri>] *)
+Lemma parse_label_ok ns p0 r :
+  wf_ns_facts ns p0 -> ok_label ns (pd_of ns) r = true ->
+  parse_label (pd_of ns) (show_ref r) = Ok (clabel ns r) /\ resolve ns r = Some (cref ns r).
+Proof.
+  intros W H. pose proof (good_pd_of _ _ W) as G.
+  destruct (ok_label_split _ _ _ H) as [Hr [_ [Hlen _]]].
+  destruct (ok_ref_cases _ _ _ _ Hr) as [[i [-> [F _]]] | [[i [-> Hi]] | [p [l [n [-> [Hn [Hl Hi]]]]]]]];
+    [discriminate | |].
+  - cbn [show_ref]. rewrite parse_label_angle. unfold clabel, cref. cbn [resolve]. auto.
+  - cbn [show_ref] in *. unfold clabel, cref. cbn [resolve]. rewrite Hn. cbn [option_map].
+    split; [|reflexivity].
+    pose proof (ns_of_In _ _ _ Hn) as Hin.
+    destruct (ok_prefix_facts _ (wn_prefix_ok _ _ W _ _ Hin)) as [_ [_ [Hnc [Hlt _]]]].
+    unfold parse_label. rewrite Hlen. cbn [orb].
+    unfold has_corners. rewrite (prefixed_not_angle _ _ Hlt). cbn [andb].
+    change (Str ":") with [":"%char]. cbn [app].
+    rewrite (find_first ":"%char p l Hnc).
+    pose proof (len_nonneg p).
+    destruct (len p =? -1)%Z eqn:E; [apply Z.eqb_eq in E; lia|].
+    rewrite slice_to_app.
+    rewrite (In_dget_nodup _ _ _ (gp_nodup _ G) (pd_of_In _ _ _ _ W Hin)).
+    replace (p ++ ":"%char :: l) with ((p ++ [":"%char]) ++ l) by (rewrite <- app_assoc; reflexivity).
+    replace (len p + 1)%Z with (len (p ++ [":"%char])) by (rewrite len_app; reflexivity).
+    rewrite slice_from_app, flag_label. reflexivity.
+Qed.
+
 Lemma parse_json_item_ok ns p0 wf it :
   wf_ns_facts ns p0 -> ok_item_syn ns wf it = true ->
   parse_json_item wf (pd_of ns) (show_selector (it_sel it), show_ref (it_label it)) = Ok (citem ns it).
 Proof.
-  intros W H. unfold ok_item_syn in H. apply andb_true_iff in H. destruct H as [H Hsel].
-  apply andb_true_iff in H. destruct H as [Hang Hlab].
+  intros W H. unfold ok_item_syn in H. apply andb_true_iff in H. destruct H as [Hlab Hsel].
   unfold parse_json_item. cbn [fst snd]. rewrite (parse_selector_ok _ _ _ _ W Hsel). cbn [bind].
-  destruct (it_label it) as [i|i|p l] eqn:E; try discriminate. cbn [show_ref].
-  rewrite parse_label_angle. cbn [bind]. unfold citem. rewrite E. reflexivity.
+  destruct (parse_label_ok _ _ _ W Hlab) as [Hp _]. rewrite Hp. reflexivity.
 Qed.
 
 Lemma parse_json_ok ns p0 wf its :
@@ -634,16 +680,14 @@ Qed.
 
 (** *** fixed syntax: characters of an item *)
 
-Definition safe (s : str) : bool := nochar "@"%char s && nochar (ascii_of_nat 10) s.
+(** no line break inside *)
+Definition safe (s : str) : bool := nochar (ascii_of_nat 10) s.
 
 Lemma safe_app a b : safe (a ++ b) = safe a && safe b.
-Proof.
-  unfold safe. rewrite !nochar_app.
-  destruct (nochar "@"%char a), (nochar "@"%char b), (nochar (ascii_of_nat 10) a), (nochar (ascii_of_nat 10) b); reflexivity.
-Qed.
+Proof. unfold safe. apply nochar_app. Qed.
 
-Lemma safe_word s : nospace s = true -> nochar "@"%char s = true -> safe s = true.
-Proof. intros H1 H2. unfold safe. rewrite H2, (nospace_nonl _ H1). reflexivity. Qed.
+Lemma safe_word s : nospace s = true -> safe s = true.
+Proof. apply nospace_nonl. Qed.
 
 Lemma ref_safe ns p0 fo r :
   wf_ns_facts ns p0 -> ok_ref ns (pd_of ns) fo r = true -> fo = false ->
@@ -656,13 +700,13 @@ Proof.
   - pose proof (ok_iri_facts _ Hi) as Fi.
     assert (Hs : nospace (Str "<" ++ i ++ Str ">") = true) by (rewrite !nospace_app, (if_nospace _ Fi); reflexivity).
     repeat split; [|assumption|discriminate].
-    apply safe_word; [assumption|]. rewrite !nochar_app, (if_noat _ Fi). reflexivity.
+    apply safe_word; assumption.
   - pose proof (ns_of_In _ _ _ Hn) as Hin.
     destruct (ok_prefix_facts _ (wn_prefix_ok _ _ W _ _ Hin)) as [Hs [Hat [_ [_ [_ [Hhash _]]]]]].
-    destruct (ok_local_facts _ _ Hl) as [Hls [Hlat _]].
+    destruct (ok_local_facts _ _ Hl) as [Hls _].
     assert (Hsp : nospace (p ++ Str ":" ++ l) = true) by (apply nospace_prefixed; assumption).
     repeat split; [|assumption| destruct p; discriminate |].
-    + apply safe_word; [assumption|]. rewrite !nochar_app, Hat, Hlat. reflexivity.
+    + apply safe_word; assumption.
     + destruct p as [|c p]; [reflexivity | exact Hhash].
 Qed.
 
@@ -713,9 +757,11 @@ Proof.
       apply edge_r_snoc. reflexivity.
     + discriminate.
     + reflexivity.
-  - unfold ok_query in H. repeat (apply andb_true_iff in H; destruct H as [H ?]).
+  - unfold ok_query in H.
+    apply andb_true_iff in H; destruct H as [H H0]. apply andb_true_iff in H; destruct H as [H H1].
+    apply andb_true_iff in H; destruct H as [H3 H2].
     constructor.
-    + rewrite !safe_app. unfold safe at 2. rewrite H, H3. reflexivity.
+    + rewrite !safe_app. unfold safe at 2. rewrite H3. reflexivity.
     + reflexivity.
     + change (Str "SPARQL '" ++ q ++ Str "'") with ((Str "SPARQL '" ++ q) ++ ["'"%char]).
       apply edge_r_snoc. reflexivity.
@@ -798,7 +844,12 @@ Proof. destruct a; [contradiction | auto]. Qed.
 
 (** an item of the domain, written down *)
 Record item_facts (ns : nsdict) (wf : str -> bool) (it : item) : Prop := {
-  itf_label : exists l, it_label it = Angle l /\ safe (Str "<" ++ l ++ Str ">") = true;
+  itf_lab_noat : nochar "@"%char (show_ref (it_label it)) = true;
+  itf_lab_safe : safe (show_ref (it_label it)) = true;
+  itf_lab_nospace : nospace (show_ref (it_label it)) = true;
+  itf_lab_nonempty : show_ref (it_label it) <> [];
+  itf_lab_nocomma : suffixb (Str ",") (show_ref (it_label it)) = false;
+  itf_lab_parse : parse_label (pd_of ns) (show_ref (it_label it)) = Ok (clabel ns (it_label it));
   itf_sel : text_facts (show_selector (it_sel it));
   itf_parse : parse_node_selector wf (pd_of ns) (show_selector (it_sel it)) = Ok (csel ns (it_sel it))
 }.
@@ -806,66 +857,75 @@ Record item_facts (ns : nsdict) (wf : str -> bool) (it : item) : Prop := {
 Lemma item_facts_of ns p0 wf it :
   wf_ns_facts ns p0 -> ok_item_syn ns wf it = true -> item_facts ns wf it.
 Proof.
-  intros W H. unfold ok_item_syn in H. apply andb_true_iff in H. destruct H as [H Hsel].
-  apply andb_true_iff in H. destruct H as [Hang Hlab].
-  constructor.
-  - destruct (it_label it) as [i|i|p l] eqn:E; try discriminate. exists i. split; [reflexivity|].
-    apply (ref_safe _ _ _ _ W Hlab eq_refl).
+  intros W H. unfold ok_item_syn in H. apply andb_true_iff in H. destruct H as [Hlab Hsel].
+  destruct (ok_label_split _ _ _ Hlab) as [Hr [Hat [_ Hcomma]]].
+  destruct (ref_safe _ _ _ _ W Hr eq_refl) as [L1 [L2 [L3 _]]].
+  destruct (parse_label_ok _ _ _ W Hlab) as [Hp _].
+  constructor; auto.
   - apply (selector_text _ _ _ _ W Hsel).
   - apply (parse_selector_ok _ _ _ _ W Hsel).
 Qed.
 
+Lemma last_char_snoc c s d : last_char_is c (s ++ [d]) = Ascii.eqb d c.
+Proof. unfold last_char_is. rewrite at_idx_last. reflexivity. Qed.
+
+Lemma last_char_suffixb c s : last_char_is c s = suffixb [c] s.
+Proof.
+  destruct s as [|x s] using rev_ind; [reflexivity|].
+  rewrite last_char_snoc. unfold suffixb. rewrite rev_app_distr. cbn. rewrite andb_true_r. apply Ascii.eqb_sym.
+Qed.
+
+Lemma last_char_app c a b : b <> [] -> last_char_is c (a ++ b) = last_char_is c b.
+Proof. intros H. rewrite !last_char_suffixb. apply suffixb_one_app. assumption. Qed.
+
 Lemma show_item_line ns wf it tail :
   item_facts ns wf it -> (tail = [] \/ tail = Str ",") -> line_facts (show_item it ++ tail).
 Proof.
-  intros F Ht. destruct (itf_label _ _ _ F) as [l [El Sl]]. pose proof (itf_sel _ _ _ F) as TS.
-  unfold show_item. rewrite El. cbn [show_ref].
-  set (sel := show_selector (it_sel it)) in *.
-  pose proof (tf_safe _ TS) as Ss. unfold safe in Ss, Sl.
-  apply andb_true_iff in Ss. destruct Ss as [_ Ss]. apply andb_true_iff in Sl. destruct Sl as [_ Sl].
+  intros F Ht. pose proof (itf_sel _ _ _ F) as TS. unfold show_item.
+  set (sel := show_selector (it_sel it)) in *. set (L := show_ref (it_label it)).
+  pose proof (itf_lab_safe _ _ _ F) as SL. pose proof (tf_safe _ TS) as Ss. unfold safe in *. fold L in SL.
   constructor.
-  - rewrite !nochar_app, Ss. rewrite !nochar_app in Sl. rewrite Sl.
-    destruct Ht as [-> | ->]; reflexivity.
+  - rewrite !nochar_app, Ss, SL. destruct Ht as [-> | ->]; reflexivity.
   - apply strip_id.
     + rewrite <- !app_assoc. apply edge_l_app; [apply (tf_nonempty _ TS) | apply (tf_edge_l _ TS)].
     + destruct Ht as [-> | ->].
-      * rewrite app_nil_r.
-        replace (sel ++ Str "@" ++ Str "<" ++ l ++ Str ">") with ((sel ++ Str "@" ++ Str "<" ++ l) ++ [">"%char])
-          by (repeat (rewrite <- app_assoc; cbn [app Str list_ascii_of_string]); reflexivity).
-        apply edge_r_snoc. reflexivity.
+      * rewrite app_nil_r. rewrite app_assoc. apply edge_ok_rev_app;
+          [apply (itf_lab_nospace _ _ _ F) | apply (itf_lab_nonempty _ _ _ F)].
       * apply edge_r_snoc. reflexivity.
   - intros E. apply app_eq_nil in E. destruct E as [E _]. apply app_eq_nil in E. destruct E as [E _].
     apply (tf_nonempty _ TS E).
   - rewrite <- !app_assoc. rewrite first_char_app by (apply (tf_nonempty _ TS)). apply (tf_nothash _ TS).
 Qed.
 
-Lemma last_char_snoc c s d : last_char_is c (s ++ [d]) = Ascii.eqb d c.
-Proof. unfold last_char_is. rewrite at_idx_last. reflexivity. Qed.
+Lemma split_item_last a b :
+  nochar "@"%char b = true -> split_item (a ++ Str "@" ++ b) = [a; b].
+Proof.
+  intros H. unfold split_item. rewrite flag_rsplit. change c_sm_item_sep with ["@"%char].
+  change (Str "@") with ["@"%char]. cbn [app]. rewrite (rfind_last "@"%char a b H).
+  pose proof (len_nonneg a). destruct (len a =? -1)%Z eqn:E; [apply Z.eqb_eq in E; lia|].
+  rewrite slice_to_app.
+  replace (a ++ "@"%char :: b) with ((a ++ ["@"%char]) ++ b) by (rewrite <- app_assoc; reflexivity).
+  replace (len a + len ["@"%char])%Z with (len (a ++ ["@"%char])) by (rewrite len_app; reflexivity).
+  rewrite slice_from_app. reflexivity.
+Qed.
 
 Lemma parse_fixed_item_ok ns wf it tail :
   item_facts ns wf it -> (tail = [] \/ tail = Str ",") ->
   parse_fixed_item wf (pd_of ns) (show_item it ++ tail) = Ok (citem ns it).
 Proof.
-  intros F Ht. destruct (itf_label _ _ _ F) as [l [El Sl]]. pose proof (itf_sel _ _ _ F) as TS.
+  intros F Ht. pose proof (itf_sel _ _ _ F) as TS.
   unfold parse_fixed_item.
   assert (Hrt : remove_trailing_comma (show_item it ++ tail) = show_item it).
-  { unfold remove_trailing_comma. destruct Ht as [-> | ->].
-    - rewrite app_nil_r. unfold show_item. rewrite El. cbn [show_ref].
-      replace (show_selector (it_sel it) ++ Str "@" ++ Str "<" ++ l ++ Str ">")
-        with ((show_selector (it_sel it) ++ Str "@" ++ Str "<" ++ l) ++ [">"%char])
-        by (repeat (rewrite <- app_assoc; cbn [app Str list_ascii_of_string]); reflexivity).
-      rewrite last_char_snoc. reflexivity.
+  { unfold remove_trailing_comma. change (nth 0%nat c_sm_trailing_char " "%char) with ","%char.
+    destruct Ht as [-> | ->].
+    - rewrite app_nil_r. unfold show_item. rewrite app_assoc.
+      rewrite last_char_app by (apply (itf_lab_nonempty _ _ _ F)).
+      rewrite last_char_suffixb. change [","%char] with (Str ","). rewrite (itf_lab_nocomma _ _ _ F). reflexivity.
     - change (Str ",") with [","%char]. rewrite last_char_snoc, slice_to_snoc. reflexivity. }
-  rewrite Hrt. unfold show_item. rewrite El. cbn [show_ref].
-  pose proof (tf_safe _ TS) as Ss. unfold safe in Ss, Sl.
-  apply andb_true_iff in Ss. destruct Ss as [Ss _]. apply andb_true_iff in Sl. destruct Sl as [Sl _].
-  change c_sm_item_sep with ["@"%char]. change (Str "@") with ["@"%char].
-  change (show_selector (it_sel it) ++ ["@"%char] ++ Str "<" ++ l ++ Str ">")
-    with (show_selector (it_sel it) ++ "@"%char :: (Str "<" ++ l ++ Str ">")).
-  rewrite split_two by assumption.
-  rewrite angle_edges, parse_label_angle. cbn [bind].
-  rewrite (tf_strip _ TS), (itf_parse _ _ _ F). cbn [bind].
-  unfold citem. rewrite El. reflexivity.
+  rewrite Hrt. unfold show_item.
+  rewrite (split_item_last _ _ (itf_lab_noat _ _ _ F)).
+  rewrite (strip_nospace _ (itf_lab_nospace _ _ _ F)), (itf_lab_parse _ _ _ F). cbn [bind].
+  rewrite (tf_strip _ TS), (itf_parse _ _ _ F). reflexivity.
 Qed.
 
 Lemma parse_fixed_lines ns wf its :
